@@ -16,16 +16,20 @@ LEVEL = "model_checking"
 TRUSTED = ["CrossHair 0.0.110 + z3 (path-exhaustive symbolic execution within the stated bounds)",
            "the harness' reference model of delivery / parameter propagation", "recording stubs for the CasADi kernels"]
 ASSUMPTIONS = ["numeric kernels of the estimator are recording stubs; status/attitude messages are dict-backed stand-ins",
-               "the Logger's periodic snapshot (simpy process) is NOT decided (not attempted within reach of CrossHair)"]
+               "Logger harness: the logger's latest-data record and the parameter message are dict-backed stand-ins (times stay "
+               "symbolic); Logger.get_log_as_array (NumPy conversion of the rows) is outside the claim; floats are modelled "
+               "as reals by CrossHair"]
 BOUNDS = {"quick": {"bus": "<= 2 subscribers x <= 3 publications x 3 topics (all assignments)",
                     "type check": "3 publishers x 3 message types", "parameters": "<= 3 updates over 3 parameters, 2 nodes",
-                    "estimator": "<= 3 callbacks, any imu/mag pattern, arbitrary times in [0, 100], with and without init"},
-          "thorough": {"bus": "<= 3 subscribers x <= 4 publications", "estimator": "<= 4 callbacks"}}
+                    "estimator": "<= 3 callbacks, any imu/mag pattern, arbitrary times in [0, 100], with and without init",
+                    "logger": "run of 0.05 s, initial period 0.02 s, <= 1 driver action (publish a / publish b / set period in "
+                              "[0.01, 0.04]) after an arbitrary gap in [0, 0.03]"},
+          "thorough": {"bus": "<= 3 subscribers x <= 4 publications", "estimator": "<= 4 callbacks", "logger": "<= 2 driver actions"}}
 EXPLANATION = ("bounded, path-exhaustive symbolic execution of the real bus and estimator-node code; each claim is a "
                "postcondition over symbolic inputs; reachability twins guard against vacuity")
 
 ROOT = os.path.dirname(os.path.dirname(os.path.dirname(os.path.abspath(__file__))))
-FUNCS = ["bus_delivery", "bus_type_check", "param_propagation", "estimator_schedule"]
+FUNCS = ["bus_delivery", "bus_type_check", "param_propagation", "estimator_schedule", "logger_rows"]
 
 
 def run_crosshair(fn, tier, timeout_s):
@@ -109,7 +113,7 @@ def replay_call(call_src):
 def jobs(tier, seed):
     fns = list(FUNCS)
     if tier == "thorough":
-        fns += ["bus_delivery_big", "estimator_schedule_big"]
+        fns += ["bus_delivery_big", "estimator_schedule_big", "logger_rows_big"]
     return [(f"C20:{fn}", job, (fn, tier, seed)) for fn in fns]
 
 
